@@ -196,8 +196,101 @@ def gen_case(rng, widen=False):
     }
 
 
+def gen_two_models(rng):
+    """oracle-only stream: one callback container used by model A, one of its children lent to a model B in between,
+    then A again (order A, B, A): every event A's run delivers must carry A and A's counter (seeded change C13-i)"""
+    n = rng.randint(1, 3)
+    return {"kind": "two_models", "algo": rng.choice(["A2C", "DQN"]), "n_envs": n, "k": rng.randint(1, 4), "unit": "step",
+            "learning_starts": 0, "seed": rng.randint(0, 2**31 - 1),
+            "scripts": [gen_script(rng) for _ in range(n)] if "gen_script" in globals() else None,
+            "container": rng.choice(["list", "eval", "everyN"]), "every": rng.randint(1, 5),
+            "totals": [rng.randint(2, 12), rng.randint(2, 20), rng.randint(2, 12)], "reset_third": rng.chance(0.5)}
+
+
 def gen_cases(ctx):
-    return [gen_case(ctx.rng, ctx.widen) for _ in range(ctx.budget(320, 3600))]
+    cases = [gen_case(ctx.rng, ctx.widen) for _ in range(ctx.budget(320, 3600))]
+    cases += [gen_two_models(ctx.rng) for _ in range(ctx.budget(24, 240))]
+    return cases
+
+
+def check_two_models(ctx, case):
+    """see gen_two_models"""
+    import warnings
+
+    from stable_baselines3.common.callbacks import BaseCallback, CallbackList, EvalCallback, EveryNTimesteps
+    from stable_baselines3.common.vec_env import DummyVecEnv
+
+    from harness.envs import EnvFn
+
+    rep = ctx.report
+    rep.count("kind:two_models:" + case["container"])
+    warnings.filterwarnings("ignore")
+    base = dict(case)
+    if not base.get("scripts"):
+        base["scripts"] = [[[1.0, False, False]] * 5 + [[0.0, True, False]] for _ in range(case["n_envs"])]
+    A, envA = make_model(base)
+    B, envB = make_model(dict(base, seed=case["seed"] + 1))
+    bad = []
+
+    class Rec(BaseCallback):
+        def __init__(self, name):
+            super().__init__()
+            self.name = name
+            self.owner = None   # the model whose learn() is running
+
+        def _chk(self, ev):
+            own = self.owner
+            if own is None:
+                return
+            if self.model is not own:
+                bad.append((self.name, ev, "callback.model is not the model being trained"))
+            elif int(self.num_timesteps) != int(own.num_timesteps) and ev != "training_start_pre":
+                bad.append((self.name, ev, f"num_timesteps {int(self.num_timesteps)} != model's {int(own.num_timesteps)}"))
+
+        def _on_training_start(self):
+            self._chk("training_start")
+
+        def _on_rollout_start(self):
+            if self.owner is not None and self.model is not self.owner:
+                bad.append((self.name, "rollout_start", "callback.model is not the model being trained"))
+
+        def _on_step(self):
+            self._chk("step")
+            return True
+
+    leaf = Rec("leaf")
+    inner = Rec("inner")
+    try:
+        if case["container"] == "list":
+            container = CallbackList([leaf, EveryNTimesteps(case["every"], inner)])
+            lend = leaf
+        elif case["container"] == "everyN":
+            container = CallbackList([EveryNTimesteps(case["every"], inner), leaf])
+            lend = leaf
+        else:
+            evenv = DummyVecEnv([EnvFn(env_id=9, obs_kind="box1", act_kind=act_kind(base), script=base["scripts"][0],
+                                       check_actions=False)])
+            container = EvalCallback(evenv, callback_on_new_best=inner, callback_after_eval=None, eval_freq=case["every"],
+                                     n_eval_episodes=1, verbose=0, warn=False)
+            container = CallbackList([container, leaf])
+            lend = inner
+        for cb in (leaf, inner):
+            cb.owner = A
+        guarded(ctx, case, lambda: A.learn(case["totals"][0], callback=container))
+        for cb in (leaf, inner):
+            cb.owner = B if cb is lend else None
+        guarded(ctx, case, lambda: B.learn(case["totals"][1], callback=lend))
+        for cb in (leaf, inner):
+            cb.owner = A
+        guarded(ctx, case, lambda: A.learn(case["totals"][2], callback=container, reset_num_timesteps=case["reset_third"]))
+    finally:
+        envA.close()
+        envB.close()
+    rep.case(case, {k: case[k] for k in ("algo", "n_envs", "container", "reset_third")})
+    if bad:
+        rep.violation("a callback lent to another model in between reports the wrong model / timestep counter", case,
+                      {"kind": "two_models", "container": case["container"], "what": bad[0][2].split(" ")[0]},
+                      {"first": [list(map(str, b)) for b in bad[:4]]})
 
 
 # ------------------------------------------------------------------------------------------------
@@ -270,6 +363,8 @@ def lean_tree(nd):
 
 
 def shrink_candidates(case):
+    if case.get("kind") == "two_models":
+        return
     for c in _shrink_candidates(case):
         if valid_tree(c["tree"]):
             yield c
@@ -1096,6 +1191,9 @@ def check_cases(ctx, cases):
     rep = ctx.report
     ops, plan = [], []
     for case in cases:
+        if case.get("kind") == "two_models":
+            check_two_models(ctx, case)
+            continue
         out = guarded(ctx, case, lambda: run_impl(ctx, case))
         if out is None:
             rep.case(case, None)
